@@ -3,7 +3,9 @@
    query_exec.go: processDataBlock; row_matcher.go: materializeRow).
    Part 1: the capacity-class arithmetic.  Part 2: a labelled transition system over
    memory regions: pooled buffers, buffers held by a scan, and delivered rows.
+   Part 3: readPooledBlockRowData as a program over that system.
    Executable definitions only. *)
+From BS Require Import Model.Validate.
 From Coq Require Import List ZArith NArith Bool.
 Import ListNotations.
 Open Scope Z_scope.
@@ -133,3 +135,19 @@ Fixpoint ofirst_bad (s : ost) (evs : list oev) (i : nat) : option nat :=
   | [] => None
   | e :: t => match ostep s e with None => Some i | Some s' => ofirst_bad s' t (S i) end
   end.
+
+(* ---- Part 3: readPooledBlockRowData as a program over the pool ----
+   The branch is chosen on normalizeCompression(block.Compression): the legacy empty value and
+   "none" are the same compression (both are CNone here).  c and d are the regions the first and
+   the second getScanBuffer call hand out (RowDataSize, then UncompressedSize). *)
+Definition pooled_self (k : comp) : bool := match k with CNone => true | _ => false end.
+
+(* the pool events of a successful read, and the region whose bytes the caller goes on to scan:
+   uncompressed rows are the read buffer itself; a codec decodes into d and c goes straight back *)
+Definition pooled_read (k : comp) (c d : N) (csize ccap dsize dcap : Z) : list oev * N :=
+  if pooled_self k then ([OGet c csize ccap], c)
+  else ([OGet c csize ccap; OGet d dsize dcap; OPut c ccap], d).
+
+(* the release closure handed to the caller *)
+Definition pooled_release (k : comp) (ccap dcap : Z) (r : N) : list oev :=
+  [OPut r (if pooled_self k then ccap else dcap)].
